@@ -41,6 +41,8 @@ def freqs_for(case, rng, RES=1e-3):
             w0 = p['w']
             for n in (0, 1, 2, 3, rng.randint(4, 9)):
                 ws |= {n * w0, n * w0 + RES * (1 - 1e-4), n * w0 + RES * (1 + 1e-4)}
+                if n >= 1 and n * w0 > 2 * RES:
+                    ws |= {n * w0 - RES * (1 - 1e-4), n * w0 - RES * (1 + 1e-4)}      # just below a harmonic (inside / outside)
             ws.add(1.5 * w0)
             ws.add(2.5 * w0)
     ws |= {0.0, RES * (1 - 1e-6), RES * (1 + 1e-6), 7.0, 12345.678}
